@@ -958,6 +958,7 @@ package ircserver
 // keys of the nickname holds are lowered nicknames (inserted as NickToLower(...) only)
 //@   requires only-holds-canonical: forall n lcNick :: n in i.svsholds ==> NickToLower(n) == n
 // the channel table is well-formed (chanShape: keys are the lowered names, member maps and ban lists exist), member keys are lowered nicknames
+//@   requires only-chanwc-shape: chanShape(i)
 //@   requires only-chanw-shape: chanShape(i) && (forall ch lcChan, n lcNick :: ch in i.channels && n in i.channels[ch].nicks ==> i.channels[ch].nicks[n] != nil && NickToLower(n) == n) && (forall ch lcChan, m int :: ch in i.channels && 0 <= m && m < 65 ==> !i.channels[ch].modes[m])
 //@   requires legacy-created: forall x robust.Id :: x in i.sessions ==> i.sessions[x].Created > 0 && !i.sessions[x].LastNonPing.IsZero()
 // user modes are letters: nothing below 'A' is ever set (cmdMode only sets parsed mode letters)
@@ -988,12 +989,14 @@ package ircserver
 //@     invariant sess-l16: forall a int, b int {sessions[a], sessions[b]} :: 0 <= a && a < b && b < len(sessions) ==> snapId(sessions[a]) != snapId(sessions[b])
 // the loops after the session loop leave the session list alone
 //@   loop range i.channels
+//@     invariant chanwc: (forall k int :: 0 <= k && k < len(channels) ==> channels[k] != nil && allocated(channels[k])) && forall ch lcChan :: seen(ch) ==> (exists k int :: 0 <= k && k < len(channels) && chanKey(channels[k]) == ch)
 //@     invariant chanw: forall k int :: 0 <= k && k < len(channels) ==> chanEntryOK(channels[k], i) && seen(chanKey(channels[k]))
 //@     invariant chanw-distinct: forall a int, b int {channels[a], channels[b]} :: 0 <= a && a < b && b < len(channels) ==> chanKey(channels[a]) != chanKey(channels[b])
 //@     invariant sess-l17: forall k int :: 0 <= k && k < len(sessions) ==> sessEntryOK(sessions[k], i)
 //@     invariant sess-l18: forall x robust.Id :: x in i.sessions ==> (exists k int :: 0 <= k && k < len(sessions) && snapId(sessions[k]) == x)
 //@     invariant sess-l19: forall a int, b int {sessions[a], sessions[b]} :: 0 <= a && a < b && b < len(sessions) ==> snapId(sessions[a]) != snapId(sessions[b])
 //@   loop range channel.nicks
+//@     invariant chanwc: channel != nil && seen(ChanToLower(channel.name), "range i.channels") && (forall k int :: 0 <= k && k < len(channels) ==> channels[k] != nil && allocated(channels[k])) && forall ch lcChan :: seen(ch, "range i.channels") && ch != ChanToLower(channel.name) ==> (exists k int :: 0 <= k && k < len(channels) && chanKey(channels[k]) == ch)
 //@     invariant chanw: channel != nil && ChanToLower(channel.name) in i.channels && i.channels[ChanToLower(channel.name)] == channel && seen(ChanToLower(channel.name), "range i.channels") && (forall k int :: 0 <= k && k < len(channels) ==> chanEntryOK(channels[k], i) && seen(chanKey(channels[k]), "range i.channels") && chanKey(channels[k]) != ChanToLower(channel.name))
 //@     invariant chanw-distinct: forall a int, b int {channels[a], channels[b]} :: 0 <= a && a < b && b < len(channels) ==> chanKey(channels[a]) != chanKey(channels[b])
 //@     invariant chanw-nicks: nicks != nil && allocated(nicks) && (forall n lcNick :: seen(n) <==> n in nicks) && (forall n string :: n in nicks ==> n in channel.nicks && nicks[n] != nil && allocated(nicks[n]) && allocated(nicks[n].Mode) && memberRepr(nicks[n], channel.nicks[n]) && (forall j int :: 0 <= j && j < len(nicks[n].Mode) ==> len(nicks[n].Mode[j]) > 0 && nicks[n].Mode[j][0] < 2))
@@ -1001,6 +1004,7 @@ package ircserver
 //@     invariant sess-l21: forall x robust.Id :: x in i.sessions ==> (exists k int :: 0 <= k && k < len(sessions) && snapId(sessions[k]) == x)
 //@     invariant sess-l22: forall a int, b int {sessions[a], sessions[b]} :: 0 <= a && a < b && b < len(sessions) ==> snapId(sessions[a]) != snapId(sessions[b])
 //@   loop range channelNickModes
+//@     invariant chanwc: channel != nil && seen(ChanToLower(channel.name), "range i.channels") && (forall k int :: 0 <= k && k < len(channels) ==> channels[k] != nil && allocated(channels[k])) && forall ch lcChan :: seen(ch, "range i.channels") && ch != ChanToLower(channel.name) ==> (exists k int :: 0 <= k && k < len(channels) && chanKey(channels[k]) == ch)
 //@     invariant chanw: channel != nil && ChanToLower(channel.name) in i.channels && i.channels[ChanToLower(channel.name)] == channel && seen(ChanToLower(channel.name), "range i.channels") && (forall k int :: 0 <= k && k < len(channels) ==> chanEntryOK(channels[k], i) && seen(chanKey(channels[k]), "range i.channels") && chanKey(channels[k]) != ChanToLower(channel.name))
 //@     invariant chanw-distinct: forall a int, b int {channels[a], channels[b]} :: 0 <= a && a < b && b < len(channels) ==> chanKey(channels[a]) != chanKey(channels[b])
 //@     invariant chanw-nicks: nickName in channel.nicks && channelNickModes == channel.nicks[nickName] && channelNickModes != nil && nicks != nil && allocated(nicks) && (forall n lcNick :: (seen(n, "range channel.nicks") && n != nickName) <==> n in nicks) && (forall n string :: n in nicks ==> n in channel.nicks && nicks[n] != nil && allocated(nicks[n]) && allocated(nicks[n].Mode) && memberRepr(nicks[n], channel.nicks[n]) && (forall j int :: 0 <= j && j < len(nicks[n].Mode) ==> len(nicks[n].Mode[j]) > 0 && nicks[n].Mode[j][0] < 2))
@@ -1010,6 +1014,7 @@ package ircserver
 //@     invariant sess-l24: forall x robust.Id :: x in i.sessions ==> (exists k int :: 0 <= k && k < len(sessions) && snapId(sessions[k]) == x)
 //@     invariant sess-l25: forall a int, b int {sessions[a], sessions[b]} :: 0 <= a && a < b && b < len(sessions) ==> snapId(sessions[a]) != snapId(sessions[b])
 //@   loop for mode < 'z' #1
+//@     invariant chanwc: channel != nil && seen(ChanToLower(channel.name), "range i.channels") && (forall k int :: 0 <= k && k < len(channels) ==> channels[k] != nil && allocated(channels[k])) && forall ch lcChan :: seen(ch, "range i.channels") && ch != ChanToLower(channel.name) ==> (exists k int :: 0 <= k && k < len(channels) && chanKey(channels[k]) == ch)
 //@     invariant chanw: channel != nil && ChanToLower(channel.name) in i.channels && i.channels[ChanToLower(channel.name)] == channel && seen(ChanToLower(channel.name), "range i.channels") && (forall k int :: 0 <= k && k < len(channels) ==> chanEntryOK(channels[k], i) && seen(chanKey(channels[k]), "range i.channels") && chanKey(channels[k]) != ChanToLower(channel.name))
 //@     invariant chanw-distinct: forall a int, b int {channels[a], channels[b]} :: 0 <= a && a < b && b < len(channels) ==> chanKey(channels[a]) != chanKey(channels[b])
 //@     invariant chanw-nicks: nicks != nil && allocated(nicks) && (forall n lcNick :: n in channel.nicks <==> n in nicks) && (forall n string :: n in nicks ==> nicks[n] != nil && allocated(nicks[n]) && allocated(nicks[n].Mode) && memberRepr(nicks[n], channel.nicks[n]) && (forall j int :: 0 <= j && j < len(nicks[n].Mode) ==> len(nicks[n].Mode[j]) > 0 && nicks[n].Mode[j][0] < 2))
@@ -1019,6 +1024,7 @@ package ircserver
 //@     invariant sess-l27: forall x robust.Id :: x in i.sessions ==> (exists k int :: 0 <= k && k < len(sessions) && snapId(sessions[k]) == x)
 //@     invariant sess-l28: forall a int, b int {sessions[a], sessions[b]} :: 0 <= a && a < b && b < len(sessions) ==> snapId(sessions[a]) != snapId(sessions[b])
 //@   loop range channel.bans
+//@     invariant chanwc: channel != nil && seen(ChanToLower(channel.name), "range i.channels") && (forall k int :: 0 <= k && k < len(channels) ==> channels[k] != nil && allocated(channels[k])) && forall ch lcChan :: seen(ch, "range i.channels") && ch != ChanToLower(channel.name) ==> (exists k int :: 0 <= k && k < len(channels) && chanKey(channels[k]) == ch)
 //@     invariant chanw: channel != nil && ChanToLower(channel.name) in i.channels && i.channels[ChanToLower(channel.name)] == channel && seen(ChanToLower(channel.name), "range i.channels") && (forall k int :: 0 <= k && k < len(channels) ==> chanEntryOK(channels[k], i) && seen(chanKey(channels[k]), "range i.channels") && chanKey(channels[k]) != ChanToLower(channel.name))
 //@     invariant chanw-distinct: forall a int, b int {channels[a], channels[b]} :: 0 <= a && a < b && b < len(channels) ==> chanKey(channels[a]) != chanKey(channels[b])
 //@     invariant chanw-nicks: nicks != nil && allocated(nicks) && (forall n lcNick :: n in channel.nicks <==> n in nicks) && (forall n string :: n in nicks ==> nicks[n] != nil && allocated(nicks[n]) && allocated(nicks[n].Mode) && memberRepr(nicks[n], channel.nicks[n]) && (forall j int :: 0 <= j && j < len(nicks[n].Mode) ==> len(nicks[n].Mode[j]) > 0 && nicks[n].Mode[j][0] < 2))
@@ -1028,6 +1034,7 @@ package ircserver
 //@     invariant sess-l30: forall x robust.Id :: x in i.sessions ==> (exists k int :: 0 <= k && k < len(sessions) && snapId(sessions[k]) == x)
 //@     invariant sess-l31: forall a int, b int {sessions[a], sessions[b]} :: 0 <= a && a < b && b < len(sessions) ==> snapId(sessions[a]) != snapId(sessions[b])
 //@   loop range i.svsholds
+//@     invariant chanwc: (forall k int :: 0 <= k && k < len(channels) ==> channels[k] != nil && allocated(channels[k])) && forall ch lcChan :: ch in i.channels ==> (exists k int :: 0 <= k && k < len(channels) && chanKey(channels[k]) == ch)
 //@     invariant chanw: forall k int :: 0 <= k && k < len(channels) ==> chanEntryOK(channels[k], i)
 //@     invariant chanw-distinct: forall a int, b int {channels[a], channels[b]} :: 0 <= a && a < b && b < len(channels) ==> chanKey(channels[a]) != chanKey(channels[b])
 //@     invariant holds: svsholds != nil && allocated(svsholds) && (forall n lcNick :: seen(n) <==> n in svsholds) && (forall n string :: n in svsholds ==> svsholds[n] != nil && allocated(svsholds[n]) && allocated(svsholds[n].Added) && n in i.svsholds && holdRepr(svsholds[n], i.svsholds[n]) && parseok(svsholds[n].Duration))
@@ -1035,12 +1042,14 @@ package ircserver
 //@     invariant sess-l33: forall x robust.Id :: x in i.sessions ==> (exists k int :: 0 <= k && k < len(sessions) && snapId(sessions[k]) == x)
 //@     invariant sess-l34: forall a int, b int {sessions[a], sessions[b]} :: 0 <= a && a < b && b < len(sessions) ==> snapId(sessions[a]) != snapId(sessions[b])
 //@   loop range i.Config.IRC.Operators
+//@     invariant chanwc: (forall k int :: 0 <= k && k < len(channels) ==> channels[k] != nil && allocated(channels[k])) && forall ch lcChan :: ch in i.channels ==> (exists k int :: 0 <= k && k < len(channels) && chanKey(channels[k]) == ch)
 //@     invariant chanw: forall k int :: 0 <= k && k < len(channels) ==> chanEntryOK(channels[k], i)
 //@     invariant chanw-distinct: forall a int, b int {channels[a], channels[b]} :: 0 <= a && a < b && b < len(channels) ==> chanKey(channels[a]) != chanKey(channels[b])
 //@     invariant sess-l35: forall k int :: 0 <= k && k < len(sessions) ==> sessEntryOK(sessions[k], i)
 //@     invariant sess-l36: forall x robust.Id :: x in i.sessions ==> (exists k int :: 0 <= k && k < len(sessions) && snapId(sessions[k]) == x)
 //@     invariant sess-l37: forall a int, b int {sessions[a], sessions[b]} :: 0 <= a && a < b && b < len(sessions) ==> snapId(sessions[a]) != snapId(sessions[b])
 //@   loop range i.Config.IRC.Services
+//@     invariant chanwc: (forall k int :: 0 <= k && k < len(channels) ==> channels[k] != nil && allocated(channels[k])) && forall ch lcChan :: ch in i.channels ==> (exists k int :: 0 <= k && k < len(channels) && chanKey(channels[k]) == ch)
 //@     invariant chanw: forall k int :: 0 <= k && k < len(channels) ==> chanEntryOK(channels[k], i)
 //@     invariant chanw-distinct: forall a int, b int {channels[a], channels[b]} :: 0 <= a && a < b && b < len(channels) ==> chanKey(channels[a]) != chanKey(channels[b])
 //@     invariant sess-l38: forall k int :: 0 <= k && k < len(sessions) ==> sessEntryOK(sessions[k], i)
@@ -1060,6 +1069,7 @@ package ircserver
 //@   assert@call proto.Marshal#0 : sess-sessions: wfSnapSessions(addrof(snapshot))
 //@   assert@call proto.Marshal#0 : sessnicks: wfSnapNicks(addrof(snapshot))
 //@   assert@call proto.Marshal#0 : sess-sessions-repr: forall k int :: 0 <= k && k < len(sessions) ==> sessEntryOK(sessions[k], i)
+//@   assert@call proto.Marshal#0 : chanwc: forall ch lcChan :: ch in i.channels ==> (exists k int :: 0 <= k && k < len(channels) && chanKey(channels[k]) == ch)
 //@   assert@call proto.Marshal#0 : chanw: sameslice(snapshot.Channels, channels) && (forall k int :: 0 <= k && k < len(channels) ==> chanEntryOK(channels[k], i)) && wfSnapChannels(addrof(snapshot))
 //@   assert@call proto.Marshal#0 : holds: snapshot.Svsholds == svsholds && holdsRepr(addrof(snapshot), i) && wfSnapHolds(addrof(snapshot))
 //@   assert@call proto.Marshal#0 : config: snapshot.Config == config && cfgRepr(config, addrof(i.Config)) && cfgTextOK(config)
